@@ -163,7 +163,7 @@ def run_corpus(ctx):
 
 def run(ctx):
     run_corpus(ctx)
-    n = 140 if ctx.tier == 'quick' else 3000
+    n = 300 if ctx.tier == 'quick' else 5000
     for k in range(n):
         one_case(ctx, k)
         if ctx.n_new() >= 3:
